@@ -667,7 +667,7 @@ theorem loopFinish_fresh {L L2 : Locals} {state : List Name} {bound cond : Optio
     · apply perm_of_count
       intro a
       cases brkCond <;>
-        simp only [allDefsL_append, allDefsL, Node.allDefs, List.count_append, List.count_cons,
+        simp only [condNode, allDefsL_append, allDefsL, Node.allDefs, List.count_append, List.count_cons,
           List.count_nil, List.append_nil] <;> omega
 
 end OV.C01
